@@ -153,7 +153,25 @@ pub fn proc_worker(args: &[String]) -> i32 {
             b.put(marker.clone().into_bytes(), Vec::new()).map_err(|e| err_name(&e))?;
             tx.commit().map_err(|e| err_name(&e))?;
         }
+        // the documented way to share a handle between threads: clone it, use the clone elsewhere, drop the clone;
+        // the process must keep holding the database through the original handle
+        {
+            let c = db.clone();
+            let h = std::thread::spawn(move || {
+                let n = c.tx(false).ok().and_then(|tx| tx.get_bucket("markers").ok().map(|b| b.kv_pairs().count()));
+                drop(c);
+                n
+            });
+            let _ = h.join();
+        }
         std::thread::sleep(std::time::Duration::from_millis(hold));
+        // still inside: commit a second marker just before closing
+        {
+            let tx = db.tx(true).map_err(|e| err_name(&e))?;
+            let b = tx.get_or_create_bucket("late").map_err(|e| err_name(&e))?;
+            b.put(marker.clone().into_bytes(), Vec::new()).map_err(|e| err_name(&e))?;
+            tx.commit().map_err(|e| err_name(&e))?;
+        }
         let closing = now_ns();
         drop(db);
         Ok(format!("opened={} seen={} closing={} result=ok", opened, seen.join(","), closing))
